@@ -73,7 +73,7 @@ def check_table(rows, roles: dict, expected, outcome, *, constraint=None, ignore
                 # rows with extra sign atoms must be jointly feasible with the total valuation
                 merged = dict(total)
                 merged.update(r.valuation)
-                if feasible(merged):
+                if feasible(merged) and consistent(merged):
                     cands.append(r)
         if not cands:
             raise Unrecognised(f"no row of the decision tree matches the table row {rv}")
@@ -111,3 +111,20 @@ def _show_rv(rv):
 def final(row, name):
     v = row.env.get(name)
     return vkey(v) if v is not None else None
+
+
+def consistent(val: dict) -> bool:
+    """Cross-atom facts about one opaque value K: None is falsy and equals no constant; K equals at most one constant."""
+    eq_true = {}
+    for k, v in val.items():
+        if k.startswith("eq:") and v is True:
+            obj = k[3:].rsplit(":", 1)[0]
+            eq_true.setdefault(obj, 0)
+            eq_true[obj] += 1
+            if val.get("isnone:" + obj) is True:
+                return False
+            if val.get("truthy:" + obj) is False and k[3:].rsplit(":", 1)[1] not in ("''", "b''", "0", "False", "None"):
+                return False
+        if k.startswith("truthy:") and v is True and val.get("isnone:" + k[7:]) is True:
+            return False
+    return all(n <= 1 for n in eq_true.values())
